@@ -21,6 +21,7 @@ POOL = [
     ("n70", "(-(2^70))", "ibig"),
     ("p63", "(2^63)", "ibig"),
     ("imax", "9223372036854775807", "ibig"),
+    ("imin", "((-9223372036854775807) - 1)", "ibig"),      # the most negative machine word, held as one
     ("half", "(1/2)", "q"),
     ("n3h", "((-3)/2)", "q"),
     ("f0", "0.0", "f"),
